@@ -20,6 +20,12 @@ Reading of the statement.
   firmly-in-force scope the parameter lay throughout has been sent that value.
 * `QuiescentLastEqCache`: when nothing is in progress, the last update a connection holds for a parameter
   firmly in scope equals the cache.
+* `OnlyExported`: a scope is made of exported parameters of exported modules; nothing else is ever delivered.
+* `TablesFrame`, `TablesOwn` ("the scopes of other connections are unaffected", on the dispatcher's tables): an action changes
+  only the table row of the connection whose request thread acts — an updater none —, and every entry stands for an
+  activation of that connection still possibly in force.
+* `RepliesMatch`: well-formedness of the trace (a reply answers the open request); used to name the scope in the index form
+  of `SnapshotComplete`.
 -/
 namespace Frappy.Spec.C08
 open Frappy.Activate
@@ -231,5 +237,52 @@ def quiescentBad (cfg : Cfg) (cache : Mod → Par → Entry) (tr : List Obs) : O
 /-- an action of connection `c`'s thread, or of any updater, changes nobody else's scope -/
 def OthersUnaffected (cfg : Cfg) (σ σ' : State) (a : Act) : Prop :=
   step cfg σ a = some σ' → ∀ c' m p, a.t ≠ .h c' → listens σ' c' m p = listens σ c' m p
+
+/-! ## OnlyExported: the scope of anything is made of exported parameters of exported modules -/
+
+def exportedOk (cfg : Cfg) : Obs → Bool
+  | .deliver _ m p _ => exported cfg m p
+  | _ => true
+
+/-- no update of a parameter that is not exported (or of a module that is not) is ever delivered, whatever is activated -/
+def OnlyExported (cfg : Cfg) (tr : List Obs) : Prop := tr.all (exportedOk cfg) = true
+
+/-! ## replies answer requests (well-formedness of a connection's part of the trace) -/
+
+def matchNext (op : Conn → Option Req) : Obs → Conn → Option Req
+  | .reqStart c r => set op c (some r)
+  | .reply c _ _ => set op c none
+  | _ => op
+
+def matchOk (op : Conn → Option Req) : Obs → Bool
+  | .reqStart c _ => op c == none
+  | .reply c r _ => op c == some r
+  | _ => true
+
+/-- a request marker of `c` comes only when no request of `c` is open; a reply to `c` answers the request that is open -/
+def matchMon : Mon (Conn → Option Req) := ⟨fun _ => none, matchNext, matchOk⟩
+
+def RepliesMatch (tr : List Obs) : Prop := matchMon.accepts tr = true
+
+/-! ## the tables belong to the requests
+
+"The scopes of other connections are unaffected", read on the dispatcher's tables themselves rather than on what they
+select at one moment: `listens` can stay the same while a table row changes (a connection that is globally active and
+is *additionally* entered under `m:p` listens to `m:p` before and after — but no longer stops listening at its global
+`deactivate`). -/
+
+/-- the activations of `c` possibly in force after `tr` (the state of `silentMon`) -/
+def liveAfter (tr : List Obs) : Conn → List Scope := silentMon.after silentMon.init tr
+
+/-- every entry of the tables — `c ∈ _active_connections`, `c ∈ _subscriptions[k]` under whatever key `k` — stands for an
+activation of that very connection that is still possibly in force (its own request put it there, nothing else did) -/
+def TablesOwn (σ : State) : Prop :=
+  (∀ c, σ.active c = true → Scope.all ∈ liveAfter σ.trace c) ∧
+  (∀ k c, σ.subs k c = true → ∃ s, s ≠ Scope.all ∧ s.key = k ∧ s ∈ liveAfter σ.trace c)
+
+/-- an action changes no table row but the one of the connection whose request thread acts; in particular an updater
+(`announceUpdate` → `broadcast_event`) changes none -/
+def TablesFrame (cfg : Cfg) (σ σ' : State) (a : Act) : Prop :=
+  step cfg σ a = some σ' → ∀ c', a.t ≠ .h c' → σ'.active c' = σ.active c' ∧ ∀ k, σ'.subs k c' = σ.subs k c'
 
 end Frappy.Spec.C08
